@@ -573,21 +573,26 @@ class ProbTable:
     def __init__(self, seed):
         self.seed, self.t = seed, {}
 
-    MODES = ("any", "sameT", "bc_only", "oneT", "tiny")
+    MODES = ("any", "sameT", "bc_only", "oneT", "tiny", "t0_only", "sameT_t0")
 
     def get(self, order, n, v, mode="any"):
         """mode: how variant 2 relates to variant 1 of the same size - independent data ("any"), the same durations with other waypoints
         and boundary states ("sameT"), only one boundary component differs ("bc_only"), only one duration differs ("oneT"), one waypoint
-        coordinate differs in its last bits ("tiny"): what a 'nothing changed' shortcut that compares only part of the inputs gets wrong"""
+        coordinate differs in its last bits ("tiny"), only the start time differs ("t0_only"), the same durations with another start time and
+        other data ("sameT_t0"): what a 'nothing changed' shortcut that compares only part of the inputs gets wrong"""
         k = (order, n, v) if (v == 1 or mode == "any") else (order, n, v, mode)
         if k not in self.t:
             r = gen.Rng(self.seed * 7919 + order * 1000 + n * 10 + v)
             if v != 1 and mode != "any":
                 base = self.get(order, n, 1)[0]
                 pr = dict(base)
-                if mode == "sameT":
+                if mode in ("sameT", "sameT_t0"):
                     other = r.problem(order, C10_DIM[order], n, tdom="W", dcls=base["dcls"])
                     pr["P"], pr["bc"] = other["P"], other["bc"]
+                    if mode == "sameT_t0":
+                        pr["t0"] = base["t0"] + r.choice([5.0, -3.5, 0.125])
+                elif mode == "t0_only":
+                    pr["t0"] = base["t0"] + r.choice([5.0, -3.5, 0.125, 1e6])
                 elif mode == "bc_only":
                     bc = {kk: list(vv) for kk, vv in base["bc"].items()}
                     which = r.choice(["sv", "ev"] if order == 3 else ["sv", "sa", "ev", "ea"] if order == 5 else ["sv", "sa", "sj", "ev", "ea", "ej"])
